@@ -1342,6 +1342,8 @@ class UserID(Packet):
         uid = UserID()
         uid.header = copy.copy(self.header)
         uid.uid = self.uid
+        # a user id that was not valid UTF-8 must be written back with the codec it was read with
+        uid._encoding_fallback = self._encoding_fallback
         return uid
 
     def parse(self, packet):
